@@ -24,6 +24,8 @@ struct Sim {
     unsignalled: bool,
     adversary: bool,
     slow: bool,
+    /// connection ids this link held in earlier epochs (its late signals carry them)
+    old_ids: Vec<usize>,
 }
 
 pub struct Profile {
@@ -41,6 +43,7 @@ pub struct Profile {
     pub big_bursts: bool,
     pub max_conn_small: bool,
     pub v5: bool,
+    pub late_signals: bool,
 }
 
 pub fn profile(name: &str) -> Profile {
@@ -59,6 +62,7 @@ pub fn profile(name: &str) -> Profile {
         big_bursts: true,
         max_conn_small: false,
         v5: false,
+        late_signals: false,
     };
     match name {
         "c01" => Profile { name: "c01", retained: true, ..base },
@@ -66,7 +70,7 @@ pub fn profile(name: &str) -> Profile {
         "c06" => Profile { name: "c06", ..base },
         "c08" => Profile { name: "c08", persistent: true, takeover: true, clients: (2, 4), ..base },
         "c09" => Profile { name: "c09", clients: (2, 3), ..base },
-        "c14" => Profile { name: "c14", adversarial: true, persistent: true, clients: (3, 5), ..base },
+        "c14" => Profile { name: "c14", adversarial: true, persistent: true, late_signals: true, clients: (3, 5), ..base },
         "c15" => Profile { name: "c15", retained: true, shared: true, clients: (2, 4), big_bursts: false, ..base },
         "c16" => Profile { name: "c16", wills: true, retained: true, clients: (2, 4), big_bursts: false, ..base },
         "c17" => Profile { name: "c17", shared: true, clients: (3, 5), ..base },
@@ -150,8 +154,13 @@ impl<'a> Gen<'a> {
         for j in 0..self.sims.len() {
             if j != i && self.sims[j].cid == cid {
                 self.sims[j].alive = false;
-                self.sims[j].id = None;
+                if let Some(old) = self.sims[j].id.take() {
+                    self.sims[j].old_ids.push(old);
+                }
             }
+        }
+        if let Some(old) = self.sims[i].id {
+            self.sims[i].old_ids.push(old);
         }
         let sim = &mut self.sims[i];
         sim.alive = true;
@@ -324,6 +333,7 @@ impl<'a> Gen<'a> {
             }
         }
         self.sims[i].alive = false;
+        self.sims[i].old_ids.push(id);
         self.sims[i].id = None;
         self.st.tag("disconnect");
     }
@@ -358,7 +368,24 @@ impl<'a> Gen<'a> {
         }
     }
 
+    /// a late signal of a connection that has ended (its link notices the closed socket after the
+    /// router already removed it): carries the old slot id, which may have been reused
+    fn late_signal(&mut self) -> bool {
+        let cands: Vec<(usize, usize)> = self.sims.iter().flat_map(|s| s.old_ids.iter().map(move |o| (s.l, *o))).collect();
+        if cands.is_empty() {
+            return false;
+        }
+        let (l, id) = *self.rng.pick(&cands);
+        let kind = *self.rng.pick(&["disc", "ready", "data"]);
+        self.st.tag("late-signal");
+        self.op(format!("ev {id} {kind} @{l}"));
+        true
+    }
+
     fn stale_event(&mut self) {
+        if self.rng.chance(1, 2) && self.late_signal() {
+            return;
+        }
         let id = *self.rng.pick(&[0u64, 1, 2, 3, 7, 1000]);
         let k = self.rng.below(6);
         self.st.tag("stale-or-foreign-event");
@@ -467,7 +494,7 @@ impl<'a> Gen<'a> {
             2,  // ping
             if self.p.persistent || self.p.wills || self.p.takeover { 3 } else { 1 }, // disconnect
             if adv { 10 } else { 0 },
-            if self.p.stale_events { 3 } else { 0 },
+            if self.p.stale_events { 3 } else if self.p.late_signals { 2 } else { 0 },
             3,  // run to idle
             if self.p.takeover { 2 } else { 0 },
         ];
@@ -512,7 +539,13 @@ impl<'a> Gen<'a> {
             }
             9 => self.disconnect(i),
             10 => self.adversarial(i),
-            11 => self.stale_event(),
+            11 => {
+                if self.p.stale_events {
+                    self.stale_event()
+                } else {
+                    self.late_signal();
+                }
+            }
             12 => {
                 self.run_to_idle();
             }
